@@ -14,7 +14,7 @@ open Gen.Avx2 GoldilocksVerif
 
 /-- shift_avx adds 2^63 (mod 2^64) in every lane -/
 theorem C02_shift_avx (a : V4) (i : Fin 4) : ((shift_avx a).get i).toNat = unsh (a.get i).toNat := by
-  rw [shift_get, shift_toNat_unsh]
+  rw [shift_get, shift_spec]
 
 /-- toCanonical_avx: canonical representative in every lane, for all inputs -/
 theorem C02_toCanonical_avx (a : V4) (i : Fin 4) :
